@@ -790,6 +790,16 @@ def make_epoch(args, kws, star_kw):
             if a[0] == "sym" and a[1].startswith("*"):
                 return ("epoch", T.call("date2jde", a))
             return ("epoch", a)
+    if len(args) == 3 and not kws and not star_kw and all(a[0] == "num" for a in args) \
+            and args[0][1].denominator == 1 and args[1][1].denominator == 1 and args[0][1] >= 1583:
+        # literal Gregorian date: folded with the standard civil-date -> JD formula
+        # (constant folding of a literal; the library's own conversion is C01's subject)
+        y, m, d = int(args[0][1]), int(args[1][1]), args[2][1]
+        a = (14 - m) // 12
+        yy = y + 4800 - a
+        mm = m + 12 * a - 3
+        jdn = 1 + (153 * mm + 2) // 5 + 365 * yy + yy // 4 - yy // 100 + yy // 400 - 32045
+        return ("epoch", ("num", Fraction(jdn) - Fraction(1, 2) + (d - 1)))
     extra = [("kw", k, v) for k, v in sorted(kws.items())] + [("kw", "**", v) for v in star_kw]
     return ("epoch", T.call("date2jde", *args, *extra))
 
